@@ -56,6 +56,10 @@ func CreateBasicStack() *BmStack {
 			}
 		},
 		"bits": func(i int) int {
+			if i <= 0 {
+				// an empty sender or receiver list still needs a (1 bit wide) arbitration register
+				return 1
+			}
 			return NeededBits(i)
 		},
 	}
